@@ -243,6 +243,13 @@ def _call_site(prog, fn, rg, b, t, eb, ebf):
                         return Site(fn, b, k, line, txt, "discharged", "D6 split point len(x) - c <= len(x) (the subtraction is checked on its own)")
                 rr = rg.of(a1)
                 need = rr[1] if rr and rr[0] >= 0 else None
+        if need is not None and e[3]:
+            x_ = e[3][0]
+            while x_[0] in ("ref", "cast"):
+                x_ = x_[2]
+            ma = re.match(r"^\[[^;\]]+; (\d+)(_usize)?\]$", (rg.ty_of(x_) or "").replace("&", "").replace("mut ", "").strip())
+            if ma and need <= int(ma.group(1)):
+                return Site(fn, b, k, line, txt, "discharged", "D2 range end %d <= %s, the length of the array" % (need, ma.group(1)))
         if nm.split("::")[-1] in ("remove", "swap_remove") and len(e[3]) > 1:
             a1s = e[3][1]
             if a1s[0] == "proj" and a1s[1][0] == "binop" and a1s[1][1] == "SubWithOverflow" and a1s[2] == ".0":
